@@ -253,7 +253,9 @@ def run(ctx: Ctx) -> None:
                 default_init = first_def.get(v) is n and (
                     (isinstance(val, ast.Constant) and val.value in (None, "", 0, False)) or (isinstance(val, (ast.List, ast.Dict, ast.Set, ast.Tuple)) and not getattr(val, "elts", getattr(val, "keys", []))))
                 dies = cfg.paths_avoiding(n, cfg.exit, lambda x, v=v: v in node_defs(x)) or any(s_ is cfg.exit for s_, _ in n.succ)
-                ok = effectful or default_init or not dies
+                # a plain copy of another local (`in_class = is_class_block`) holds nothing its source does not
+                alias = isinstance(val, ast.Name)
+                ok = effectful or default_init or alias or not dies
                 ctx.ob("R1.9", f"parser:CxxParser.{fname}|{v} @ `{short(st, 40)}`", ok,
                        msg=f"`{short(st)}` computes `{v}` but no path reads it afterwards: something the parser recognised (a flag, a name, a qualifier) is dropped instead of being reported", node=st, mod=mod)
         sig_handler = fname in handlers or fname.startswith(("_consume_", "_on_", "_process_"))
